@@ -134,6 +134,20 @@ def r3_dedup(ctx):
     f2 = force(body, tbl2)
     wo = f2.reach_from(0, avoid=[bi for bi, e in ins])
     r.check(not any(b in wo for b in oks), "ok=>marked", "an accepted (non-grandfathered) faucet always inserts the marker", "Ok is reachable without inserting the marker")
+    # the grandfathered transaction: 'accepted at most once' has no exception.  With "this is the grandfathered hash" forced and the marker absent, is Ok
+    # reachable without the marker being inserted?  Then nothing remembers that it was applied: it is accepted again in the same block and in every later one
+    # (its outputs are re-created and its fee — backed by no input — is credited to the fee pool each time).
+    if a["bug"]:
+        tbl3 = dict(base)
+        tbl3.update({e: 0 for bi, e in a["present"]})
+        tbl3.update({e: 1 for bi, e in a["bug"]})
+        f3 = force(body, tbl3)
+        wo3 = f3.reach_from(0, avoid=[bi for bi, e in ins])
+        if any(b in wo3 for b in oks):
+            r.violation("grandfathered/replayable", "the grandfathered faucet transaction is accepted without a marker being inserted, so it is never recognised as a duplicate: "
+                        "it can be applied again in the same block and in every later block, on every network", body.where(a["bug"][0][0]))
+        else:
+            r.ok("grandfathered/replayable", "the grandfathered transaction is marked like any other")
     for bi, e in ins:
         where = body.where(bi)
         r.check(sig(e[2][1]) == KEY, "insert/key", "inserted under the looked-up key", "inserted under %s, looked up under %s" % (sig(e[2][1]), KEY), where)
